@@ -84,7 +84,7 @@ def run_concurrent(scn, sched_tape=(), plan=None, trace=None, trace_opcodes=Fals
                 for i, op in enumerate(scn["ops"]):
                     sched.spawn(lambda op=op, i=i: runner.run_op_async(dev, op, i, out))
                 await sched.run()
-            asyncio.run(main())
+            runner.run_async(main())
             workers = [(w["result"], w["exc"]) for w in sched.workers]
     finally:
         OBS["active"] = False
